@@ -3,7 +3,7 @@
 import os, re, subprocess, sys
 ROOT = os.path.dirname(os.path.dirname(os.path.abspath(__file__)))
 out = subprocess.check_output([sys.executable, os.path.join(ROOT, 'tools', 'status_table.py')], text=True)
-status, seeded = out.split('\n\n', 1)
+status, seeded, refac = out.split('\n\n', 2)
 p = os.path.join(ROOT, 'DESIGN.md')
 s = open(p).read()
 def put(s, tag, body):
@@ -14,6 +14,7 @@ def put(s, tag, body):
     return s.replace(tag.upper() + '_PLACEHOLDER', block)
 s = put(s, 'status_table', status)
 s = put(s, 'seeded_table', seeded)
+s = put(s, 'refactor_table', refac)
 # per-property claims, read from the contract modules without importing them
 import ast, json
 claims = []
